@@ -211,6 +211,7 @@ func (c *Fn) LenExprs(x ssa.Value, d int) []string {
 			if vals, ok := c.F.ReachingStores(v); ok && len(vals) == 1 {
 				out = append(out, c.LenExprs(vals[0], d+1)...)
 			}
+			out = append(out, c.siblingLens(v)...)
 		}
 	case *ssa.ChangeType:
 		out = append(out, c.LenExprs(v.X, d+1)...)
@@ -316,6 +317,126 @@ func (c *Fn) builtLen(call *ssa.Call) []string {
 		}
 	}
 	return out
+}
+
+// siblingLens: u loads slice field g of the struct a pointer parameter p
+// points to, untouched since entry. When at every call site the caller built
+// arg.g with exactly len(arg.f) elements for a sibling slice field f (and
+// arg.f has not changed since), len(p.g) == len(p.f) on entry: the length is
+// named through the loads of p.f in this function that still see the entry
+// version.
+func (c *Fn) siblingLens(u *ssa.UnOp) []string {
+	fa, ok := u.X.(*ssa.FieldAddr)
+	if !ok || c.F.Version(u) != "0" {
+		return nil
+	}
+	p, ok := fa.X.(*ssa.Parameter)
+	if !ok {
+		return nil
+	}
+	st, ok := derefStruct(p.Type())
+	if !ok || !isSlice(st.Field(fa.Field).Type()) {
+		return nil
+	}
+	var out []string
+	for f := 0; f < st.NumFields(); f++ {
+		if f == fa.Field || !isSlice(st.Field(f).Type()) {
+			continue
+		}
+		if !c.E.siblingLenHolds(p, fa.Field, f) {
+			continue
+		}
+		for _, b := range c.fn.Blocks {
+			for _, in := range b.Instrs {
+				u2, ok := in.(*ssa.UnOp)
+				if !ok || u2.Op != token.MUL {
+					continue
+				}
+				fa2, ok := u2.X.(*ssa.FieldAddr)
+				if ok && fa2.X == ssa.Value(p) && fa2.Field == f && c.F.Version(u2) == "0" {
+					out = append(out, "len("+c.F.E(u2)+")")
+				}
+			}
+		}
+	}
+	return out
+}
+
+func derefStruct(t types.Type) (*types.Struct, bool) {
+	if pt, ok := t.Underlying().(*types.Pointer); ok {
+		t = pt.Elem()
+	}
+	st, ok := t.Underlying().(*types.Struct)
+	return st, ok
+}
+
+// siblingLenHolds: at every call site of p's function the argument is the
+// address of a local struct whose field #g was last assigned a slice made
+// with len(<the same struct>.#f) elements, #f unchanged since.
+func (e *Engine) siblingLenHolds(p *ssa.Parameter, g, f int) bool {
+	key := fmt.Sprintf("sib%p.%d.%d", p, g, f)
+	if iv, ok := e.fmemo[key]; ok {
+		return iv.LoOK
+	}
+	res := false
+	defer func() { e.fmemo[key] = interval.Iv{LoOK: res} }()
+	fn := p.Parent()
+	sites, open := e.callers(fn)
+	if open || len(sites) == 0 {
+		return false
+	}
+	for _, s := range sites {
+		al, ok := argFor(s.Site, fn, p).(*ssa.Alloc)
+		if !ok {
+			return false
+		}
+		cc := e.Of(s.Caller.Func)
+		var addrG, addrF *ssa.FieldAddr
+		for _, ref := range *al.Referrers() {
+			if a, ok := ref.(*ssa.FieldAddr); ok {
+				if a.Field == g && addrG == nil {
+					addrG = a
+				}
+				if a.Field == f && addrF == nil {
+					addrF = a
+				}
+			}
+		}
+		if addrG == nil || addrF == nil {
+			return false
+		}
+		call, ok := s.Site.(ssa.Instruction)
+		if !ok {
+			return false
+		}
+		keyG, _ := cc.F.LoadKeyOfAddr(addrG)
+		keyF, locF := cc.F.LoadKeyOfAddr(addrF)
+		if keyG == "" || keyF == "" {
+			return false
+		}
+		def, ok := cc.F.InstrByID(cc.F.VersionBefore(call, keyG)).(*ssa.Store)
+		if !ok {
+			return false
+		}
+		if da, ok := def.Addr.(*ssa.FieldAddr); !ok || da.X != ssa.Value(al) || da.Field != g {
+			return false
+		}
+		want := "len(" + locF + "@" + cc.F.VersionBefore(call, keyF) + ")"
+		found := false
+		for _, x := range cc.LenExprs(def.Val, 0) {
+			if x == want {
+				found = true
+			}
+		}
+		if Debug {
+			fmt.Printf("siblingLen %s #%d~#%d at %s: want %s have %v\n", p.Name(), g, f, s.Caller.Func.Name(), want, cc.LenExprs(def.Val, 0))
+		}
+		if !found {
+			return false
+		}
+	}
+	res = true
+	return true
 }
 
 // valueExprs: renderings equal to v: its own, and for a load with a single
